@@ -37,11 +37,13 @@ var ColViewLayouts = []string{LFT, LFS, LFSS}
 
 var AllLayouts = []string{LC, LF, LFconv, LT, LS, LSS, LMT, LMS, LMSS, LST, LTS, LCSS, LTT, LTF}
 
-// RowLayouts are the C06 operand layouts {contiguous, lazily transposed, sliced, step-sliced, materialised}.
-var RowLayouts = []string{LC, LT, LS, LSS, LMS}
+// RowLayouts are the C06 operand layouts {contiguous, lazily transposed, sliced, step-sliced, materialised} and what
+// programs compose from them: a slice of a transpose, a transpose of a slice, the clone of a stepped slice (which owns its
+// storage but keeps the strides and the gaps), two stacked rotations, the whole-slice view of a transposed tensor.
+var RowLayouts = []string{LC, LT, LS, LSS, LMS, LST, LTS, LCSS, LTT, LTF}
 
 // ElemLayouts are the operand layouts of the elementwise matrices: RowLayouts plus the slice of a stepped slice.
-var ElemLayouts = []string{LC, LT, LS, LSS, LMS, LSSS}
+var ElemLayouts = []string{LC, LT, LS, LSS, LMS, LSSS, LST, LTS, LCSS, LTT, LTF}
 
 // Operand is a tensor built from a model array in a given layout, together
 // with everything the monitors need to observe raw memory.
